@@ -148,6 +148,72 @@ example : { (runKind implCopied .paren { env := initialEnv }
     = { initialEnv with exitStatus := 0 } :=
   sync_subshell_isolated implCopied .paren { env := initialEnv } _ rfl (by decide)
 
+/-- ★ A child that ENDS BY A SIGNAL: for every synchronous kind of subshell, whenever the situation is not the
+    documented top-level interactive Trap.SIGINT one — the starting shell is itself a subshell (any level >= 1), or
+    not interactive, or has a non-default Trap.SIGINT action, or the signal is not Trap.SIGINT — the starting shell only
+    observes the status (`384 + sig` through the kind's status rule) and GOES ON: it is not halted, the status
+    is in `$?`, its state is the state before. (`errexit` off; an asynchronous list is waited for by `wait`,
+    which has no such rule at all.) -/
+theorem signaled_child_only_status (copied : List (String × String)) (k : Kind) (sh : Shell)
+    (body : Shell → Shell) (sig : Nat) (h : sh.halted = none) (hk : k ≠ .async)
+    (hc : (childShell copied k sh body).halted = some (384 + sig))
+    (hn : sh.env.stack.contains "Subshell" = true ∨ sh.env.options.contains "interactive" = false
+      ∨ sigintDefault sh.env = false ∨ sig ≠ Trap.SIGINT)
+    (herr : sh.env.options.contains "errexit" = false) :
+    (runKind copied k sh body []).halted = none
+    ∧ (runKind copied k sh body []).env.exitStatus
+        = kindStatus k (sh.env.options.contains "pipefail") (384 + sig)
+    ∧ { (runKind copied k sh body []).env with exitStatus := 0 } = { sh.env with exitStatus := 0 } := by
+  have hi : ∀ st, (st = 384 + sig ∨ st = 0) →
+      interruptedBy k (controlsJobs sh.env) sh.env st = none := by
+    intro st hst
+    apply interruptedBy_eq_none
+    rcases hn with hn | hn | hn | hn
+    · exact Or.inl hn
+    · exact Or.inr (Or.inl hn)
+    · exact Or.inr (Or.inr (Or.inl hn))
+    · refine Or.inr (Or.inr (Or.inr ?_))
+      rcases hst with rfl | rfl
+      · intro hc'; exact hn (by omega)
+      · simp [Trap.SIGINT]
+  refine ⟨?_, ?_, sync_subshell_isolated copied k sh body h hk⟩
+  all_goals
+    unfold runKind
+    simp only [h, Option.isSome_none, Bool.false_eq_true, if_false, startKind_parent, parentSide_sync k _ hk, hc,
+      Option.getD_some]
+    have hw : interruptedBy k (controlsJobs sh.env) sh.env
+        (if (k == Kind.subst) = true then 384 + sig
+         else kindStatus k (sh.env.options.contains "pipefail") (384 + sig)) = none := by
+      apply hi
+      generalize sh.env.options.contains "pipefail" = pf
+      cases k <;> cases pf <;> simp [kindStatus]
+    simp only [hw]
+    have herr' : ¬ "errexit" ∈ sh.env.options := by simpa using herr
+    unfold finishKind
+    simp [herr']
+
+/-- The clause the round-3 seeded change broke: inside a subshell environment (any level >= 1) the Trap.SIGINT rule
+    never applies, whatever the `interactive` option says. -/
+theorem subshell_never_interrupts (k : Kind) (jc : Bool) (env : Env) (status : Nat)
+    (h : env.stack.contains "Subshell" = true) : interruptedBy k jc env status = none :=
+  interruptedBy_eq_none k jc env status (Or.inl h)
+
+/-- The documented exception, as a clause: at the top level of an *interactive* shell whose Trap.SIGINT action is
+    the default, a `( )` or `$( )` whose process was killed by Trap.SIGINT interrupts the command line
+    (`Divert::Interrupt(Some(384 + SIGINT))`; in the harness's read-eval loop: the script ends with that status,
+    after the EXIT trap). -/
+theorem interactive_sigint_interrupts (copied : List (String × String)) (k : Kind) (sh : Shell)
+    (body : Shell → Shell) (h : sh.halted = none) (hk : k = .paren ∨ k = .subst)
+    (hc : (childShell copied k sh body).halted = some (384 + Trap.SIGINT))
+    (hi : isInteractive sh.env = true) (hd : sigintDefault sh.env = true) :
+    (runKind copied k sh body []).halted = some (384 + Trap.SIGINT) := by
+  have hka : k ≠ .async := by rcases hk with rfl | rfl <;> decide
+  unfold runKind
+  simp only [h, Option.isSome_none, Bool.false_eq_true, if_false, startKind_parent, parentSide_sync k _ hka, hc,
+    Option.getD_some]
+  rcases hk with rfl | rfl <;>
+    simp [interruptedBy, interruptsOnSigint, kindStatus, hi, hd, finishKind, exitShell]
+
 /-- ★ `TrapSet::enter_subshell` as run by the child prologue of `Config::start`: afterwards
     (1) no condition has a command action;
     (2) a condition that was ignored is still ignored;
